@@ -52,12 +52,13 @@ type mField struct {
 }
 
 type mDoc struct {
-	Name   string
-	EOL    string
-	Paras  [][]mField
-	Raw    []byte // degenerate documents: the text as such (no paragraph in it); nil otherwise
-	IsRaw  bool
-	Exotic bool // bytes outside printable ASCII / degenerate text: not shown to gpgv (its line handling is not the reference here)
+	Name    string
+	EOL     string
+	Paras   [][]mField
+	Raw     []byte // degenerate documents: the text as such (no paragraph in it); nil otherwise
+	IsRaw   bool
+	WantErr bool // the signed text is malformed control data: after the paragraphs in Paras (if any) reading must FAIL, although the signature verifies
+	Exotic  bool // bytes outside printable ASCII / degenerate text: not shown to gpgv (its line handling is not the reference here)
 }
 
 // text renders the model as control-file text.
@@ -186,6 +187,19 @@ func documents() []mDoc {
 		{Name: "degenerate-only-comment-lines", EOL: "\n", IsRaw: true, Raw: []byte("# nothing here\n#\n# Source: commented-out\n"), Exotic: true},
 		{Name: "degenerate-whitespace-only-lines", EOL: "\n", IsRaw: true, Raw: []byte("  \n\t\n \t \n"), Exotic: true},
 		{Name: "degenerate-blank-lines-crlf", EOL: "\r\n", IsRaw: true, Raw: []byte("\r\n\r\n"), Exotic: true},
+		// validly signed but MALFORMED text: an indented line with no field before it (at the very start, after blank
+		// lines, at the start of a later paragraph) — reading must fail exactly as for the same text unsigned
+		{Name: "malformed-leading-orphan-continuation", EOL: "\n", IsRaw: true, WantErr: true, Exotic: true,
+			Raw: []byte(" Indented: value\nSource: hello\nVersion: 1.0-1\n")},
+		{Name: "malformed-orphan-continuation-after-blank-lines", EOL: "\n", IsRaw: true, WantErr: true, Exotic: true,
+			Raw: []byte("\n\n\tIndented: value\nSource: hello\n")},
+		{Name: "malformed-orphan-continuation-starts-second-paragraph", EOL: "\n", IsRaw: true, WantErr: true, Exotic: true,
+			Raw:   []byte("Source: hello\nVersion: 1.0-1\n\n Indented: value\nPackage: p\n"),
+			Paras: [][]mField{{{Key: "Source", First: "hello"}, {Key: "Version", First: "1.0-1"}}}},
+		// a non-empty line that BEGINS with a lone CR (the CR is leading blank space of the field name, not a blank line)
+		{Name: "line-begins-with-lone-cr", EOL: "\n", IsRaw: true, Exotic: true,
+			Raw:   []byte("Source: hello\n\rVersion: 1.0-1\nMaintainer: A B <a@b.example>\n\n\rPackage: p\n\r\tArchitecture: any\n"),
+			Paras: [][]mField{{{Key: "Source", First: "hello"}, {Key: "Version", First: "1.0-1"}, {Key: "Maintainer", First: "A B <a@b.example>"}}, {{Key: "Package", First: "p"}, {Key: "Architecture", First: "any"}}}},
 	}
 	// every LF document also DELIVERED WITH CRLF line ends (same canonical text), so that every tamper is applied to
 	// both deliveries
@@ -273,6 +287,7 @@ type In struct {
 	Orig      []byte   // the document before the fault (clearsigned, or plain text for Case unsigned)
 	Fault     *Fault   // nil: untampered
 	Want      []Para   // the paragraphs of the signed text, from the model
+	WantErr   bool     `json:",omitempty"` // the signed text is malformed: after Want reading must fail (as it does for the same text unsigned)
 	Hist      *Hist    `json:",omitempty"` // Case history: one keyring variable passed by the same pointer across several reads
 	Inter     *Inter   `json:",omitempty"` // Case interleave: several readers, operations interleaved
 }
@@ -661,6 +676,27 @@ func check(scen string, in In) verdict {
 			res.class += "(reference-accepts)"
 		}
 	}
+	// clause 6: what is accepted under a signature is parsed exactly like the same (canonical) text WITHOUT the armour —
+	// both fail, or both give the same paragraphs (the armour path has no parsing rules of its own)
+	if o.signer != "" && o.ctorErr == "" {
+		if blk, _ := clearsign.Decode(doc); blk != nil {
+			plain := observeRing(in.Entry, blk.Bytes, nil) // the same access path, no armour, no keyring
+			if plain.success() != o.success() || !parasEqual(plain.delivered, o.delivered) {
+				res.class = "unsound"
+				res.v = mkV(scen, "signed-text-is-parsed-like-the-same-text-unsigned", in, doc, "what the reader gives for the verified canonical text read without armour: "+plain.String(), o)
+				return res
+			}
+		}
+	}
+	if res.positive && in.WantErr {
+		if o.success() {
+			res.class = "unsound"
+			res.v = mkV(scen, "valid-signed-document-is-read-exactly", in, doc, "an error after the well-formed paragraphs: the signed text is malformed control data (an indented line with no field before it)", o)
+		} else {
+			res.class = "malformed-signed-text:rejected-as-unsigned-would-be"
+		}
+		return res
+	}
 	if res.positive && !o.success() {
 		// "reading succeeds … the paragraphs returned are exactly those of the signed text": a validly signed
 		// document whose key is in the keyring must be read (that the document IS valid is established by the
@@ -941,7 +977,7 @@ func Run(r *mc.Run) {
 	r.Scenario("keyring-matrix", map[string]interface{}{"signers": []string{"K1", "K2"}, "keyrings": []string{"empty", "nil-list (pointer to a nil EntityList)", "[K1]", "[K2]", "[K1,K2]", "nil"},
 		"documents": len(docs), "entry_points": entries}, len(mcases), func(i int, st *mc.Stats) bool {
 		c := mcases[i]
-		in := In{Case: "signed", Doc: c.sd.m.Name, Entry: c.e, SignerFpr: c.sd.signer.fpr, Signer: c.sd.signer.name, Orig: c.sd.bytes, Want: c.sd.want}
+		in := In{Case: "signed", Doc: c.sd.m.Name, Entry: c.e, SignerFpr: c.sd.signer.fpr, Signer: c.sd.signer.name, Orig: c.sd.bytes, Want: c.sd.want, WantErr: c.sd.m.WantErr}
 		c.r.fill(&in)
 		res := check("keyring-matrix", in)
 		st.Evals++
@@ -1030,7 +1066,7 @@ func Run(r *mc.Run) {
 					if strings.HasPrefix(f.Label, "foreign-signed-block-prepended-signed-by-K2") && len(j.rs.keys) > 1 {
 						continue // K2 is in this keyring: the prepended block would simply BE a validly signed document
 					}
-					in := In{Case: "signed", Doc: sd.m.Name, Entry: j.e, SignerFpr: K1.fpr, Signer: "K1", Orig: sd.bytes, Fault: &f, Want: sd.want}
+					in := In{Case: "signed", Doc: sd.m.Name, Entry: j.e, SignerFpr: K1.fpr, Signer: "K1", Orig: sd.bytes, Fault: &f, Want: sd.want, WantErr: sd.m.WantErr}
 					j.rs.fill(&in)
 					res := check(name, in)
 					st.Evals++
@@ -1101,6 +1137,8 @@ func selfCheck(r *mc.Run, docs []mDoc, signed []signedDoc, K1, K2 *key) {
 		"bytes-latin1-and-invalid-utf8":     `{"Source":"hello" "Maintainer":"Andr\xe9 M\xfcller <a@b.example>" "X-Bytes":"\xff mid \xc3 end\xc3" "X-Truncated":"a\xe6\x97 b" "Description":"caf\xe9\ncontinuation \xe9 \xff\n\nlast\xff\n"}`,
 		"bytes-bom-multibyte-nul-cr-dash":   `{"\ufeffSource":"héllo" "Title":"日本 😀" "X-Nul":"a\x00b" "X-CR":"a\rb" "Née":"named with é" "-dashed":"needs dash-escaping" "X-Bom-Value":"\ufeffv" "Description":"d\n\ufeffbom on a continuation line\ntab\tinside\n\n- dash\n"}{"Package":"pé"}`,
 	}
+	lit["malformed-orphan-continuation-starts-second-paragraph"] = `{"Source":"hello" "Version":"1.0-1"}`
+	lit["line-begins-with-lone-cr"] = `{"Source":"hello" "Version":"1.0-1" "Maintainer":"A B <a@b.example>"}{"Package":"p" "Architecture":"any"}`
 	lit["two-paragraphs-multiline-crlf"] = lit["two-paragraphs-multiline"]
 	lit["bytes-latin1-and-invalid-utf8-crlf"] = lit["bytes-latin1-and-invalid-utf8"]
 	dump := func(ps []Para) string {
@@ -1119,7 +1157,7 @@ func selfCheck(r *mc.Run, docs []mDoc, signed []signedDoc, K1, K2 *key) {
 	}
 	for _, d := range docs {
 		w, ok := lit[strings.TrimSuffix(d.Name, crlfDelivered)]
-		if d.IsRaw {
+		if d.IsRaw && !ok {
 			w, ok = "", true // no paragraph
 		}
 		if got := dump(d.want()); !ok || got != w {
